@@ -4,7 +4,9 @@ import (
 	"encoding/json"
 	"fmt"
 	"os"
+	"regexp"
 	"sort"
+	"strings"
 	"time"
 
 	"verifsim/core"
@@ -30,8 +32,110 @@ type workerOut struct {
 	WallS      float64
 }
 
+// raceLog follows the race detector's log file of this process (GORACE=log_path=...).
+type raceLog struct {
+	path string
+	off  int64
+}
+
+func newRaceLog() *raceLog {
+	if !kernel.RaceBuild {
+		return nil
+	}
+	base := os.Getenv("VSIM_RACELOG")
+	if base == "" {
+		return nil
+	}
+	return &raceLog{path: fmt.Sprintf("%s.%d", base, os.Getpid())}
+}
+
+var raceAccessRe = regexp.MustCompile(`(?m)^(Write|Read|Previous write|Previous read|Atomic \w+|Previous atomic \w+) (at|of) `)
+
+// fresh returns the reports written since the last call in which both accesses are in eino code.
+func (r *raceLog) fresh() []core.Violation {
+	if r == nil {
+		return nil
+	}
+	f, err := os.Open(r.path)
+	if err != nil {
+		return nil
+	}
+	defer f.Close()
+	st, _ := f.Stat()
+	if st.Size() <= r.off {
+		return nil
+	}
+	buf := make([]byte, st.Size()-r.off)
+	f.ReadAt(buf, r.off)
+	r.off = st.Size()
+	var out []core.Violation
+	for _, rep := range strings.Split(string(buf), "==================\n") {
+		if !strings.Contains(rep, "DATA RACE") {
+			continue
+		}
+		var tops []string
+		for _, blk := range strings.Split(rep, "\n\n") {
+			blk = strings.TrimSpace(blk)
+			if !raceAccessRe.MatchString(blk) {
+				continue
+			}
+			lines := strings.Split(blk, "\n")
+			start := 0
+			for i, l := range lines {
+				if raceAccessRe.MatchString(l) {
+					start = i + 1
+					break
+				}
+			}
+			for _, l := range lines[start:] {
+				if strings.HasPrefix(l, "      ") {
+					continue
+				}
+				if strings.HasPrefix(strings.TrimSpace(l), "runtime.") {
+					continue // slicecopy, memmove, map access ...: the access belongs to the caller
+				}
+				tops = append(tops, strings.TrimSpace(l))
+				break
+			}
+		}
+		if len(tops) < 2 {
+			continue
+		}
+		ok := true
+		for _, t := range tops[:2] {
+			if !strings.HasPrefix(t, "github.com/cloudwego/eino/") || strings.Contains(t, "verifhook") {
+				ok = false
+			}
+		}
+		if !ok {
+			continue
+		}
+		a, b := shortFn(tops[0]), shortFn(tops[1])
+		if a > b {
+			a, b = b, a
+		}
+		out = append(out, core.Violation{Class: "data-race:" + a + "<>" + b, Msg: rep})
+	}
+	return out
+}
+
+func shortFn(f string) string {
+	f = strings.TrimPrefix(f, "github.com/cloudwego/eino/")
+	if i := strings.Index(f, "[go.shape"); i >= 0 { // generic instantiation noise
+		j := strings.LastIndex(f, "]")
+		if j > i {
+			f = f[:i] + "[...]" + f[j+1:]
+		}
+	}
+	if i := strings.LastIndexByte(f, '('); i > 0 && strings.HasSuffix(f, ")") && !strings.Contains(f[i:], "*") {
+		f = f[:i]
+	}
+	return f
+}
+
 func workerMain(prop string, seed int64, from, to int, out string, hashes bool) int {
 	p := profile(prop)
+	rl := newRaceLog()
 	w := &workerOut{From: from, To: to, Stats: map[string]int{}, Policies: map[string]int{}, Plans: map[string]int{}}
 	start := time.Now()
 	wd := watchdog(180 * time.Second)
@@ -43,6 +147,9 @@ func workerMain(prop string, seed int64, from, to int, out string, hashes bool) 
 		t := kernel.NewSearchTape(seed, i)
 		rec := execRun(p, t, seed, i, false, false)
 		o := rec.Outcome
+		for _, v := range rl.fresh() {
+			o.Violate(prop+"/"+v.Class, v.Msg)
+		}
 		w.Runs++
 		w.Steps += int64(rec.Steps)
 		w.Choices += int64(rec.Choices)
